@@ -1679,3 +1679,28 @@ package spec
 //@   ensures  [C01] schema-url-kept @@ result != nil ==> oCnt(jv(result), "$schema") == oCnt(jv(data), "$schema") && (oCnt(jv(data), "$schema") > 0 ==> oVal(jv(result), "$schema") == oVal(jv(data), "$schema"))
 //@   ensures  [C01] other-members-kept @@ result != nil ==> (forall k string :: !schemaKey(k) && k != "$ref" && k != "$schema" ==> oCnt(jv(result), k) == oCnt(jv(data), k) && (oCnt(jv(data), k) > 0 ==> oVal(jv(result), k) == oVal(jv(data), k)))
 //@   ensures  [C01] lossless @@ result != nil ==> sameObject(jv(result), jv(data))
+
+// ---- union types: first-byte dispatch (C07)
+//@ specfn jWF([]byte) bool
+//@ specfn jbyte0([]byte) int
+//@ specfn jIsArr(smt:JV) bool
+//@ specfn jTrue() smt:JV
+//@ specfn jFalse() smt:JV
+// encoding/json on plain slices: nil is null, anything else an array; the encoding of a value decodes, to a value of the
+// same length that encodes the same way
+//@ axiom forall s []string :: triggers(encOf(s)) && ((s == nil ==> encOf(s) == jNull()) && (s != nil ==> jIsArr(encOf(s))) && decOKOf("[]string", encOf(s))
+//@        && len(decOf("[]string", encOf(s))) == len(s) && encOf(decOf("[]string", encOf(s))) == encOf(s) && (s != nil ==> decOf("[]string", encOf(s)) != nil))
+//@ axiom forall s []Schema :: triggers(encOf(s)) && ((s == nil ==> encOf(s) == jNull()) && (s != nil ==> jIsArr(encOf(s))) && decOKOf("[]Schema", encOf(s))
+//@        && len(decOf("[]Schema", encOf(s))) == len(s) && encOf(decOf("[]Schema", encOf(s))) == encOf(s) && (s != nil ==> decOf("[]Schema", encOf(s)) != nil))
+// a string encodes as a JSON string that decodes (into a string or an interface{}) to itself
+//@ axiom forall s string :: triggers(encOf(s)) && (decOKOf("string", encOf(s)) && decOf("string", encOf(s)) == s && decOKOf("interface{}", encOf(s)))
+
+// strings and string slices always encode
+//@ axiom forall s string :: triggers(encOKOf(s)) && encOKOf(s)
+//@ axiom forall s []string :: triggers(encOKOf(s)) && encOKOf(s)
+
+//@ func verifLemmaStringOrArrayFixedPoint
+//@   property C07
+//@   requires len(v) >= 0
+//@   ensures  [C07] encoded-form-decodes @@ result0 != nil ==> result1 != nil
+//@   ensures  [C07] fixed-point @@ result0 != nil && result1 != nil ==> jv(result1) == jv(result0)
